@@ -405,13 +405,16 @@ class Ctx:
         if not (len(xr0[1]) == 1 and () in xr0[1]):
             # |N/D| = |N| / |D|
             return self.rdiv(self.abs_poly(xr0[0]), self.abs_poly(xr0[1]))
-        node = T.call('fabs', [x], x.ty)
-        k = self.key(node)
-        if k not in self.rules:
-            xr = self.rat(x)
-            if xr[1] == pconst(1):
-                self.rules[k] = ppow(xr[0], 2)
-        return (patom(k), pconst(1))
+        # keyed by the *value* of the argument (|1*a| and |a| are one atom; |c * x^e| = |c| * |x|^e)
+        p = xr0[0]; dconst = abs(xr0[1][()])
+        if len(p) == 1:
+            (m, c), = p.items()
+            out = pconst(abs(c) / dconst)
+            for kk, e in m:
+                out = pmul(out, ppow(self.abs_of_atom(kk), e) if e % 2 else ppow(patom(kk), e))
+            return (self.reduce(out), pconst(1))
+        r = self.abs_poly(p)
+        return (pscale(r[0], Fraction(1) / dconst), r[1]) if dconst != 1 else r
 
     def abs_poly(self, p):
         """|p| for a polynomial p, as an atom a with a^2 -> p^2"""
